@@ -1189,7 +1189,25 @@ class Engine(ExprMixin, CallMixin):
 
     def st_Try(self, s, st):
         if s.finalbody:
-            raise Unsupported("try/finally")
+            # try: B [except ..] [else ..] finally: F  ==  the same statement without its finally clause, then F on EVERY way out
+            # of it (fall-through, return, break, continue, an exception that no handler took).  When F completes normally the
+            # pending exit goes on (a return keeps the value computed before F ran, an exception propagates); when F itself
+            # leaves (return / break / continue / raise), that exit replaces the pending one.
+            inner = ast.copy_location(ast.Try(body=s.body, handlers=s.handlers, orelse=s.orelse, finalbody=[]), s)
+            outs = []
+            for o in self.st_Try(inner, st):
+                if o.kind == "stop":  # (cut of a prefix contract: symbolic execution ends there)
+                    outs.append(o)
+                    continue
+                for f in self.exec_block(s.finalbody, o.st):
+                    if f.kind != "fall":
+                        outs.append(f)
+                        continue
+                    p = Outcome(o.kind, f.st, value=o.value, exc=o.exc, line=o.line)
+                    if hasattr(o, "node"):
+                        p.node = o.node
+                    outs.append(p)
+            return outs
         outs = []
         for o in self.exec_block(s.body, st):
             if o.kind == "raise":
